@@ -44,6 +44,20 @@ def classify(t):
     return "?" + fmt(t)[:30]
 
 
+def first_rule_name(v):
+    """v IS the name of the first rule (`rules[0].name`, `rules.first().unwrap().name`, ..): not the name of a rule chosen
+    among the rules with the first one as a fallback"""
+    x = v
+    # String/&str conversions of the name are transparent already; ValSpan<String>::as_ref too
+    while isinstance(x, tuple) and x[0] == "field" and x[2] in ("value", "0"):
+        x = x[1]
+    if not (isinstance(x, tuple) and x[0] == "field" and x[2] == "name" and str(x[3]).endswith("GrammarRule")):
+        return False
+    c = idiom.first_of(x[1])
+    return c is not None and not mir.contains(c, lambda y: isinstance(y, tuple) and y[0] == "call" and any(
+        y[1].endswith(k) for k in ("Iterator::filter", "Iterator::skip", "Iterator::rev", "::find", "Iterator::skip_while")))
+
+
 def run(ctx, res):
     F = ctx.facts("core")
     ep = F.one(GB.replace(":", r"\:") + "extract_productions_and_symbols$")
@@ -123,8 +137,7 @@ def run(ctx, res):
         for e in p.events:
             if e[0] == "store" and isinstance(e[1], tuple) and e[1][0] == "field" and e[1][2] == "start_rule_name":
                 v = e[2]
-                oks = has_field(v, "name", "GrammarRule") and mir.contains(v, lambda x: isinstance(x, tuple) and (x[0] == "index" and x[2] == ("const", 0)
-                                                                                                               or x[0] == "call" and "index" in x[1].lower() and ("const", 0) in x[2]))
+                oks = first_rule_name(v)
         if oks is not None:
             break
     if oks:
@@ -137,8 +150,7 @@ def run(ctx, res):
         if callee(t).endswith("create_aug_nt_and_production"):
             a = [tbe.operand(x) for x in t["args"]]
             if mir.const_str(a[1]) == "AUG":
-                oka = has_field(a[2], "name", "GrammarRule") and mir.contains(a[2], lambda x: isinstance(x, tuple) and (x[0] == "index" and x[2] == ("const", 0)
-                                                                                                                        or x[0] == "call" and "index" in x[1].lower() and ("const", 0) in x[2]))
+                oka = first_rule_name(a[2])
     if oka:
         res.ok(rid2, "aug-production", ep.loc(), "AUG -> rules[0].name")
     else:
